@@ -125,7 +125,8 @@ def _run_one(ctx, case):
 
 
 def host_strategy(ip_last: int):
-    alnum = st.text(alphabet="ABCDEFGHIJKLMNOPQRSTUVWXYZabcdefghijklmnopqrstuvwxyz0123456789", min_size=1, max_size=8)
+    alnum = st.one_of(st.text(alphabet="ABCDEFGHIJKLMNOPQRSTUVWXYZabcdefghijklmnopqrstuvwxyz0123456789", min_size=1, max_size=8),
+                      st.text(alphabet="ABCDEF0123456789_-. ", min_size=1, max_size=8))      # the part after the type may contain anything
     sn = st.text(alphabet="ABCDEFGHIJKLMNOPQRSTUVWXYZ0123456789abcdefghijklmnopqrstuvwxyz !#$%&()*+,-./:;<=>?@[]^_{|}~", min_size=32, max_size=32)
     ip = st.tuples(st.integers(1, 223), st.integers(0, 255), st.integers(0, 255)).map(lambda t: f"{t[0]}.{t[1]}.{t[2]}.{ip_last}")
     return st.fixed_dictionaries({
@@ -150,6 +151,17 @@ def run(ctx) -> None:
             case = {"hosts": [h], "single": tt % 5 == 0, "target": [None, "directed", "name"][tt % 3] if tt % 5 else None}
             ctx.check(case, lambda c: _run_one(ctx, c))
     ctx.sweep("all 256 type bytes x both versions", n, True)
+    # name suffixes with separators and other punctuation (the type is the second '_'-separated field, the rest is free text)
+    u = 0
+    for suffix in ("F7_B5", "A1C4_2", "F7B6_", "_F7B6", "a_b_c_d", "F7-B4", "F7.B4", "F7 B4", "__", "0"):
+        for version in (2, 3):
+            for tt in (0xAC, 0xA1):
+                u += 1
+                if ctx.mine(u):
+                    h = {"ip": f"10.4.{u}.1", "id": 0x0C0D0E000000 + u, "port": 6444, "sn": f"{u:032d}", "tt": tt, "suffix": suffix, "upper": bool(u & 1), "version": version,
+                         "listen_port": 6445, "src_port": 6445, "delay": 0.05, "extra": ""}
+                    ctx.check({"hosts": [h], "single": u % 3 == 0}, lambda c: _run_one(ctx, c))
+    ctx.sweep("name suffixes containing separators", u, True)
     # the timeout argument x hosts whose TCP side is slow / absent (every host answers the probe within a tenth of the timeout)
     k = 0
     for timeout in (0.5, 1, 2, 5, 9):
